@@ -19,8 +19,8 @@ package file
 //@ modifies fexists, fdata, last, ranCount, fswrites, fsid, dgSeq, fsSeq
 //@ ensures [C19,writes-only-inside-the-cache-directory] forall p string :: {fswrites[p]} fswrites[p] && !old(fswrites)[p] ==> ancOrSelf(join2(s.Dir, ".spok"), p)
 //@ crashinv [C10] I01(cp(s))
-//@ at call Run#0: assert [C10,invalidated-before-run] diskOK(cp(s)) ==> diskGet(cp(s), taskToRun.Name) == ""
 //@ at call Run#0: assert [C10,forgotten-in-memory-before-run] mget(mapval(cachedState.inner), taskToRun.Name) == ""
+//@ at call Run#0: assert [C10,invalidated-before-run] diskOK(cp(s)) ==> diskGet(cp(s), taskToRun.Name) == ""
 //@ ensures [I01] I01(cp(s))
 //@ ensures [shape-err] result1 != nil ==> len(result0) == 0
 //@ ensures [shape] result1 == nil ==> len(result0) == len(runOrder) && forall i int :: {result0[i]} 0 <= i && i < len(result0) ==> result0[i].Task == runOrder[i].Name
